@@ -196,9 +196,12 @@ FRAGMENT_PROVED = ("stage S1 (all graphs with unique node ids / injective kind m
                    "and they are the first k rows of a list that depends on the join order only; when the reference semantics does define the LIMIT query (k = 0 or k >= number of "
                    "base rows) the rows agree with it as a bag (tr_sound_S2L_forced). "
                    "stage S2c (same graphs; both join orders of the first hop): chains of TWO or THREE directed fixed hops "
-                   "MATCH (n0[:K...])-[e0[:T|...]]->(n1[:K...])-[e1[:T|...]]->(n2[:K...]) [-[e2[:T|...]]->(n3[:K...])] RETURN items, no WHERE / ORDER BY / SKIP / LIMIT / DISTINCT, "
-                   "all variable names distinct, every variable read by some item, items ::= x | id(x) | x.k [AS alias]; bag agreement. openCypher's relationship uniqueness within the "
-                   "MATCH is part of the reference semantics; the emitted `e_i.id != (s.e_j).id` guards are proved to match it exactly for these shapes")
+                   "MATCH (n0[:K...])-[e0[:T|...]]->(n1[:K...])-[e1[:T|...]]->(n2[:K...]) [-[e2[:T|...]]->(n3[:K...])] [WHERE c1 AND ... AND cn] RETURN items, no ORDER BY / SKIP / LIMIT / DISTINCT, "
+                   "all variable names distinct, every variable read by some item, items ::= x | id(x) | x.k [AS alias]; every conjunct ci an S1 predicate over exactly ONE pattern variable "
+                   "(node or relationship; conjuncts reading two variables are outside); bag agreement. openCypher's relationship uniqueness within the "
+                   "MATCH is part of the reference semantics; the emitted `e_i.id != (s.e_j).id` guards are proved to match it exactly for these shapes. The statement emits every conjunct in the frame "
+                   "that introduces its variable (n0, e0, n1: frame s0 as in S2b; n_(i+1): ON condition of its join in frame s_i, before the kinds; e_i: WHERE of frame s_i, before kind and guards) — "
+                   "proved to give exactly the matches Cypher keeps when it evaluates the WHERE after the whole pattern (chainMatchesSql_eq)")
 FRAGMENT_SEARCHED = ("every query of the corpora / generator the REAL translator translates and both Lean evaluators model: relationships (directed, undirected, "
                      "chains, multi-pattern, multi-MATCH), WITH pipelines, UNWIND, aggregation (count/collect/sum/min/max/avg), DISTINCT, ORDER BY on properties, "
                      "variable-length expansion, paths, OPTIONAL MATCH, quantifiers, pattern predicates, string / list / arithmetic operators; per-construct unmodelled counts are in this record")
@@ -222,7 +225,7 @@ SPEC = {
     "extra_coverage": extra_coverage,
     "panic_is_violation": False,
     "rule": "tie 1 (suite c01tie): structured random queries of the PROVED fragment S1 (kinds x predicates x items x order/skip/limit) and S2b (kinds of a / r / b x 0-4 WHERE conjuncts, "
-            "each an S1 predicate of depth <= 2 over one of a, r, b x 1-4 items over any of a, r, b) S2c (chains of 2-3 hops x kinds x items over all variables) S1c (count(n) over a node pattern x kinds x optional predicate x alias), S2n (count(x) over a hop x kinds x 0-3 conjuncts x alias) and S2L (an S2b query + LIMIT k, k in {0,1,2,3,5,50}, no ORDER BY: the real statement must be the model statement WITH the LIMIT pushed into the hop frame; prediction checked against the base query: sub-bag of exactly min(k, n) rows; splitmix64(VERIF_SEED)) are translated by the REAL "
+            "each an S1 predicate of depth <= 2 over one of a, r, b x 1-4 items over any of a, r, b) S2c (chains of 2-3 hops x kinds x items over all variables, without WHERE and — family s2cw — with 1-4 WHERE conjuncts, each an S1 predicate of depth <= 2 over one node or relationship variable) S1c (count(n) over a node pattern x kinds x optional predicate x alias), S2n (count(x) over a hop x kinds x 0-3 conjuncts x alias) and S2L (an S2b query + LIMIT k, k in {0,1,2,3,5,50}, no ORDER BY: the real statement must be the model statement WITH the LIMIT pushed into the hop frame; prediction checked against the base query: sub-bag of exactly min(k, n) rows; splitmix64(VERIF_SEED)) are translated by the REAL "
             "translator; the reflection S-expression of Result.Statement must be EQUAL to the model translator's statement (and carry no parameters) — for a hop the model has TWO "
             "statements, one per join order (`S2.Query.trWith km false / true`): which one the translator picks is a selectivity heuristic over its Go syntax tree that scores only "
             "pointer-typed nodes, which the reflection rendering does not determine, so the direction is NOT modelled; the theorems hold for both and the tie accepts either (the "
@@ -276,7 +279,7 @@ MANIFEST = {
             "relationship under any table alias / variable). Stage S2c (chains): tr_sound_S2c / c01_partial_S3 : forall flipOf flipCh prune, C01_bag_for (tr3F flipOf flipCh prune) — the statement with "
             "frames s0 (the hop frame), s1 [, s2] (each `from s_(i-1) join edge e_i on (s_(i-1).n_i).id = e_i.start_id join node n_(i+1) on ... where [kinds and] e_i.id != (s_(i-1).e_j).id`) "
             "returns a permutation of the Cypher rows. Cypher side proved for chains of ANY length (Proofs/C01ChainCy.lean matchSteps_chain: the reference matcher enumerates exactly the "
-            "extensions by a relationship not used yet), SQL side frame by frame for 2 and 3 hops (Proofs/C01ChainSql.lean frame1 / frame2, C01ChainSound.lean chain_sound); tr3_some; ofCyChain_sound. Stage S1c (count): tr_sound_S1c / count_sound — for every GraphOK graph, every query MATCH (n[:K...]) [WHERE p] RETURN count(n) [AS c] "
+            "extensions by a relationship not used yet; where_chain / clause_chain: the WHERE keeps the matches on which every conjunct is true, conjunct by conjunct through the entity-generic cy_predAt), SQL side frame by frame for 2 and 3 hops (Proofs/C01ChainSql.lean frame1 / frame2 with the conjuncts over the new relationship / node, stepRows_eq: a frame's rows are the extensions extW that pass them; C01ChainSound.lean chainMatchesSql_eq: filtering early in the frames = filtering the WHERE-free enumeration at the end (flatMap_filter_push, okWhereCh_refs), chain_sound); tr3_some; ofCyChain_sound. Stage S1c (count): tr_sound_S1c / count_sound — for every GraphOK graph, every query MATCH (n[:K...]) [WHERE p] RETURN count(n) [AS c] "
             "and both statement shapes (fast path on / off) the SQL row equals the Cypher row (Proofs/C01Count.lean: evalSelect_countA, fastStmt_eval, frameStmt_eval, cy_side_count — "
             "implicit grouping with no key is one group, count(n) counts the non-null bindings); c01_partial_S4 : forall flipOf flipCh fast prune, C01_bag_for (tr4F flipOf flipCh fast prune); "
             "tr4_some; ofCyCount1_sound. Stage S2n (count over a hop): tr_sound_S2n / count_hop_sound (Proofs/C01CountHop.lean: the S2b frame lemmas + evalSelect_countA over the pruned "
@@ -288,7 +291,7 @@ MANIFEST = {
             "hopM g base flip mapped to client rows — hopM (Proofs/C01S2Sound.lean) is the frame's scan order for the join order, a permutation of the base matches that does not depend on pruning or on the pushdown; "
             "tr_noerr_S2L (never an SQL run-time error); tr_sound_S2L_forced (when Cy.eval of the LIMIT query itself is defined, bag agreement with it). Proofs/C01S2Sql.lean hop_frame_lim / "
             "eval_cteStmt_lim evaluate the frame and the statement with their LIMIT literals; Proofs/C01Limit.lean cy_side2_lim, s2l_sound. FRAGMENT PROVED = " + FRAGMENT_PROVED + ". NOT PROVED: C01_full (the statement for a total "
-            "translator) stays a visible Prop; the design's S1 remainder (DISTINCT, ORDER BY on properties, ordered and string-function property comparisons), the rest of S2 (undirected hops, chains with WHERE or of more than three hops, "
+            "translator) stays a visible Prop; the design's S1 remainder (DISTINCT, ORDER BY on properties, ordered and string-function property comparisons), the rest of S2 (undirected hops, chains of more than three hops, "
             "WHERE conjuncts that read two variables, ORDER BY / SKIP over a hop, LIMIT over chains or counts) and S3..S5 are SEARCHED only. "
             "FRAGMENT SEARCHED = " + FRAGMENT_SEARCHED + ". Confirmed deviations of the unchanged translator from openCypher (OPTIONAL MATCH as first clause, jsonb ordering under ORDER BY, "
             "self loops under undirected patterns, missing relationship uniqueness across pattern parts, text-form comparisons, SQL run-time cast errors, ...) are findings in "
